@@ -187,7 +187,8 @@ let model (input : string) : string =
        (match WireMsg.dec_payload pver mmp (WireMsg.kind_of m) payload with
         | WireBase.Err e -> show_bytes payload ^ "|" ^ err_name e
         | WireBase.Ok (m', rest) -> Printf.sprintf "%s|%s rem=%d" (show_bytes payload) (summarize m') (llen rest)))
-  | ["F"; pver; ebs; net; ms] ->
+  | ["F"; pver; ebs; net; ms] | ["C"; pver; ebs; net; ms] ->
+    (* "C": the same framed round trip, executed by the harness while 15 other goroutines use the codec *)
     let pver = n_of_string pver and ebs = n_of_string ebs and net = n_of_string net in
     let m = parse_msg ms in
     (match WireFrame.write_message pver net ebs m with
@@ -255,8 +256,8 @@ let spec (input : string) (obs : string) : string =
             Printf.sprintf "FAIL limit-below-wellformed-%s MaxPayloadLength %s is below the longest well-formed %s payload (%s bytes) at this protocol version" cmd limit cmd (dec_of_n n)
           | _ -> "OK")
        | _ -> "FAIL malformed-observable")
-    | ["P"; pver; ebs; ms] | ["F"; pver; ebs; _; ms] ->
-      let framed = input.[0] = 'F' in
+    | ["P"; pver; ebs; ms] | ["F"; pver; ebs; _; ms] | ["C"; pver; ebs; _; ms] ->
+      let framed = input.[0] = 'F' || input.[0] = 'C' in
       let pver = n_of_string pver and ebs = n_of_string ebs in
       let mmp = WireMsg.max_message_payload ebs in
       let m = parse_msg ms in
